@@ -720,6 +720,17 @@ class H5Type(str, Enum):
         return f"{type(self).__name__}.{self.value}"
 
 
+def attr_value_for_copy(v):
+    """Return attribute value as read from a node in a form that can be written again."""
+    if isinstance(v, str):
+        try:
+            v.encode("utf-8")
+        except UnicodeEncodeError:
+            # byte string that is not UTF-8 (read back with surrogate escapes)
+            return v.encode("utf-8", "surrogateescape")
+    return v
+
+
 def h5_copy_from_to(
     source_node: Union[H5DatasetLike, H5GroupLike],
     target_group: H5GroupLike,
@@ -751,13 +762,7 @@ def h5_copy_from_to(
         if not without_attrs:
             trg_atrs = trg_node.attrs
             for k, v in src_node.attrs.items():
-                if isinstance(v, str):
-                    try:
-                        v.encode("utf-8")
-                    except UnicodeEncodeError:
-                        # byte string that is not UTF-8 (read back with surrogate escapes)
-                        v = v.encode("utf-8", "surrogateescape")
-                trg_atrs[k] = v
+                trg_atrs[k] = attr_value_for_copy(v)
 
     if isinstance(source_node, H5DatasetLike):
         node = target_group.create_dataset(target_path, data=source_node[()])
